@@ -5,7 +5,7 @@ C05 driver. One case line = one schedule on the real tracker:
 
   C05 q=<cap> w=<workers> n=<cids> <act> ... => <obs> | ret=<..> <obs> | ret=<..> <obs> ...
 
-acts   t:<pin>  u:<c>  r:<c>  R  e:<c>  k:<c>  x:<c>  l:<c>      pin = c.k.m.t  (k ∈ h e g r z m 0, m ∈ r d)
+acts   t:<pin>  u:<c>  r:<c>  R  e[P|U]:<c>  k[P|U]:<c>  x[P|U]:<c>  l:<c>  <k|x>..&<instr>      pin = c.k.m.t  (k ∈ h e g r z m 0, m ∈ r d)
 obs    s=<status per cid>  a=<StatusAll entry per cid>  d=<daemon per cid>  h=<shared per cid>
        f=<failed flag per cid>  p=<parked live calls>  g=<Track calls still running>
 The first group is the observation before any action; then one group per act, taken at the stable point after it.
@@ -59,9 +59,15 @@ def parseSimpleAct (s : String) : Option Act :=
   | ["t", p] => (parsePinTok p).map .track
   | ["u", c] => c.toNat?.map .untrack
   | ["r", c] => c.toNat?.map .recover
-  | ["e", c] => c.toNat?.map .effect
-  | ["k", c] => c.toNat?.map .ok
-  | ["x", c] => c.toNat?.map .err
+  | ["e", c] => c.toNat?.map (.effect · none)
+  | ["k", c] => c.toNat?.map (.ok · none)
+  | ["x", c] => c.toNat?.map (.err · none)
+  | ["eP", c] => c.toNat?.map (.effect · (some .pin))
+  | ["kP", c] => c.toNat?.map (.ok · (some .pin))
+  | ["xP", c] => c.toNat?.map (.err · (some .pin))
+  | ["eU", c] => c.toNat?.map (.effect · (some .unpin))
+  | ["kU", c] => c.toNat?.map (.ok · (some .unpin))
+  | ["xU", c] => c.toNat?.map (.err · (some .unpin))
   | ["l", c] => c.toNat?.map .lose
   | _ => none
 
@@ -73,8 +79,8 @@ def parseAct (s : String) : Option Act :=
     let da ← parseSimpleAct d
     let ia ← parseSimpleAct i
     match da, ia with
-    | .ok _, .track _ | .ok _, .untrack _ | .ok _, .recover _
-    | .err _, .track _ | .err _, .untrack _ | .err _, .recover _ => pure (.race da ia)
+    | .ok _ _, .track _ | .ok _ _, .untrack _ | .ok _ _, .recover _
+    | .err _ _, .track _ | .err _ _, .untrack _ | .err _ _, .recover _ => pure (.race da ia)
     | _, _ => none
   | _ => none
 
@@ -270,16 +276,16 @@ def applyAct (cfg : Cfg) (s : State) (f : Frame) : ModelOut :=
       let missing := listed.filter (fun c => !(f.infos.any (fun ci => ci.1 == c)))
       if missing.isEmpty then { s := s1, ret := .nil, infos := out }
       else { s := s1, ret := .nil, infos := out, note := "listed-cid-not-reported" }
-  | .effect c =>
-    match liveCallFor s c with
+  | .effect c sel =>
+    match liveCallFor s c sel with
     | some i => { s := effect s i, ret := .na, infos := [] }
     | none => { s := s, ret := .na, infos := [] }
-  | .ok c =>
-    match liveCallFor s c with
+  | .ok c sel =>
+    match liveCallFor s c sel with
     | some i => { s := retOk (effect s i) i, ret := .na, infos := [] }
     | none => { s := s, ret := .na, infos := [] }
-  | .err c =>
-    match liveCallFor s c with
+  | .err c sel =>
+    match liveCallFor s c sel with
     | some i => { s := retErr s i, ret := .na, infos := [] }
     | none => { s := s, ret := .na, infos := [] }
   | .lose c => { s := lose s c, ret := .na, infos := [] }
@@ -293,9 +299,10 @@ def candidates (cfg : Cfg) (s : State) (f : Frame) : List ModelOut :=
   let fin (m : ModelOut) : ModelOut := { m with s := stabilize cfg m.s }
   match f.act with
   | .race d i =>
-    let c := match d with | .ok c => c | .err c => c | _ => 0
-    let isOk := match d with | .ok _ => true | _ => false
-    match liveCallFor s c with
+    let c := match d with | .ok c _ => c | .err c _ => c | _ => 0
+    let sel := match d with | .ok _ sl => sl | .err _ sl => sl | _ => none
+    let isOk := match d with | .ok _ _ => true | _ => false
+    match liveCallFor s c sel with
     | none => [fin (applyAct cfg s { f with act := i })]
     | some op =>
       let s0 := if isOk then effect s op else s
@@ -368,7 +375,7 @@ def arms (c : Case) : List String :=
   let quiesced := (c.frames.dropWhile (fun f => !isInstr (instrOf f.act))).any (fun f => quiescent c.cfg.ncids f.obs)
   let healed := healedSomewhere c.cfg.ncids c.obs0 c.frames
   let l := (if has (fun f => f.ret == .full) then ["full"] else [])
-    ++ (if has (fun f => match f.act with | .err _ | .race (.err _) _ => true | _ => false) then ["fault"] else [])
+    ++ (if has (fun f => match f.act with | .err _ _ | .race (.err _ _) _ => true | _ => false) then ["fault"] else [])
     ++ (if has (fun f => f.ret == .pending) then ["remote"] else [])
     ++ (if has (fun f => match f.act with | .race _ _ => true | _ => false) then ["race"] else [])
     ++ (if has (fun f => match instrOf f.act with | .recover _ | .recoverAll => true | _ => false) then ["recover"] else [])
